@@ -28,6 +28,7 @@ type stats struct {
 	Verdicts   map[string]int `json:"verdicts"`
 	Panics     int            `json:"panics"`
 	StoreProof int            `json:"store_level_proofs_checked"`
+	Reframed   int            `json:"reframed_proofs_offered"`
 	Samples    []string       `json:"samples"`
 }
 
@@ -210,7 +211,7 @@ func main() {
 				}
 				malformed := false
 				if r.Chance(35) {
-					switch r.Intn(8) {
+					switch r.Intn(10) {
 					case 0:
 						if len(pf) > 0 {
 							pf = pf[:r.Intn(len(pf))]
@@ -234,6 +235,24 @@ func main() {
 							pf[i].Value[r.Intn(len(pf[i].Value))] ^= 1 << uint(r.Intn(8))
 							kind += "+value-flip"
 						}
+					case 8, 9:
+						// a value of another size: truncated, extended, or the key / value boundary of the node moved (all hashes unchanged)
+						i := r.Intn(len(pf))
+						switch r.Intn(3) {
+						case 0:
+							if len(pf[i].Value) > 1 {
+								pf[i].Value = bytes.Clone(pf[i].Value[:len(pf[i].Value)-1])
+							}
+						case 1:
+							pf[i].Value = append(bytes.Clone(pf[i].Value), byte(r.Intn(256)))
+						default:
+							if len(pf[i].Key) > 2 {
+								j := 1 + r.Intn(len(pf[i].Key)-1)
+								pf[i] = &lib.Node{Key: bytes.Clone(pf[i].Key[:j]), Value: append(bytes.Clone(pf[i].Key[j:]), pf[i].Value...), Bitmask: pf[i].Bitmask}
+								malformed = true
+							}
+						}
+						kind += "+value-resized"
 					case 4:
 						i := r.Intn(len(pf))
 						pf = append(pf[:i+1], pf[i:]...)
@@ -288,6 +307,22 @@ func main() {
 				st.Verdicts[fmt.Sprintf("%s=%d", strings.Split(kind, "+")[0], obs)]++
 				st.ByKind[kind]++
 				truth := (claimPresent && membership && bytes.Equal(claimVal, claimKey.val)) || (!claimPresent && !membership)
+				// a proof node whose value has not the size of a tree node value (a 32-byte hash, or one of the two 20-byte sentinel
+				// leaves under its own key) is refused outright since the re-framing fix: outside the model's digest-level proofs
+				for _, n := range pf {
+					if n == nil {
+						malformed = true
+						continue
+					}
+					minK, maxK := append(bytes.Repeat([]byte{0}, w/8), 0), append(bytes.Repeat([]byte{255}, w/8), 0)
+					okSize := len(n.Value) == crypto.HashSize || (bytes.Equal(n.Key, minK) && bytes.Equal(n.Value, bytes.Repeat([]byte{0}, 20))) ||
+						(bytes.Equal(n.Key, maxK) && bytes.Equal(n.Value, bytes.Repeat([]byte{255}, 20)))
+					if !okSize && !malformed {
+						malformed = true
+						kind += "+value-of-another-size"
+						st.ByKind["value-of-another-size"]++
+					}
+				}
 				if malformed {
 					// cannot be expressed as model keys: the verdict must simply never accept a false claim
 					if obs == 1 && !truth && rootLit == "None" {
@@ -389,6 +424,32 @@ func main() {
 				st.StoreProof++
 				if !ok || e2 != nil {
 					sim.Direct(*outDir, map[string]any{"finding": "store-proof-incomplete", "kind": "honest store-level proof rejected", "version": vi + 1, "present": present, "error": fmt.Sprint(e2)})
+				}
+				// re-framed proofs: the hash pre-image of a parent is leftKey|leftValue|rightKey|rightValue; moving the boundary between
+				// the key and the value of a proof node leaves every hash unchanged. For a PRESENT key no such re-framing may turn the
+				// honest membership proof into an accepted proof of non-membership (nor, for an absent key, into one of membership).
+				if ok && e2 == nil {
+					func() {
+						defer func() { _ = recover() }()
+						proof, e := ro.(*store.Store).GetProof(k)
+						if e != nil {
+							return
+						}
+						for ni := range proof {
+							orig := proof[ni]
+							for j := 1; j < len(orig.Key); j++ {
+								forged := append([]*lib.Node{}, proof...)
+								forged[ni] = &lib.Node{Key: append([]byte{}, orig.Key[:j]...), Value: append(append([]byte{}, orig.Key[j:]...), orig.Value...), Bitmask: orig.Bitmask,
+									LeftChildKey: orig.LeftChildKey, RightChildKey: orig.RightChildKey}
+								okF, _ := ro.(*store.Store).VerifyProof(k, val, !present, vv.root, forged)
+								st.Reframed++
+								if okF {
+									sim.Direct(*outDir, map[string]any{"finding": "store-proof-unsound", "kind": "a re-framed proof (key / value boundary of a proof node moved, all hashes unchanged) proves the opposite claim",
+										"version": vi + 1, "key": fmt.Sprintf("%x", k), "present": present, "proof_node": ni, "boundary": j, "node_key": fmt.Sprintf("%x", orig.Key)})
+								}
+							}
+						}
+					}()
 				}
 			}
 			ro.(*store.Store).Discard()
